@@ -28,7 +28,7 @@ func init() {
 		Explanation: "Decision tables and provenance rules over request construction, valid for every operation, argument string and option combination: framing — on all 8 paths of serialize ({1.0,1.1} x header on/off x self-closing on/off) the payload is Marshal(message) with the XML declaration prepended exactly when not excluded and the self-closing rewrite applied exactly when forced; the raw copy is a copy of exactly that payload; 1.0 framing is payload + ']]>]]>'; 1.1 framing is '#' + decimal len(payload) + LF + payload + LF '##', where len is the BYTE length of the very value that follows the header. " +
 			"write-sequence — sendRPC writes the framed bytes of that serialisation followed by a return, then exactly one further return on the 'version == 1.1' edge, before it starts waiting; the response object reports the raw and framed bytes of the same serialisation. " +
 			"element-wiring — every operation struct carries the RFC 6241 element name in its xml tag, rpc has the base namespace and a message-id attribute, and every builder puts each of its parameters into the element the RFC names (source -> <source>, target -> <target>, filter -> filter payload or select attribute by type, defaults mode -> <with-defaults>, configuration -> edit-config inner XML), and every public method hands its arguments to its builder in the right positions; the NETCONF operation options store the setting they name. " +
-			"NOT decided: well-formedness of arbitrary caller XML, escaping by encoding/xml, the regular expression of the self-closing rewrite (whether it can eat a non-empty element), decoding by an independent RFC 6242 parser.",
+			"NOT decided: well-formedness of arbitrary caller XML, escaping by encoding/xml, the regular expression of the self-closing rewrite beyond the name-equality guard (selfclose-guard), decoding by an independent RFC 6242 parser.",
 		Assumptions: []string{"encoding/xml marshals struct tags as documented", "len() of a byte slice is its byte length (by construction)"},
 		Mutants: []Mutant{
 			{ID: "C03-rune-count", Desc: "chunk size counts characters, not bytes", Rule: "C03/framing",
@@ -52,6 +52,8 @@ func init() {
 				Edits: []Edit{{File: "driver/netconf/editconfig.go", Old: "\treturn d.sendRPC(d.buildEditConfigElem(target, config), op)", New: "\treturn d.sendRPC(d.buildEditConfigElem(config, target), op)"}}},
 			{ID: "C03-response-other-bytes", Desc: "response reports the unframed bytes as framed input", Rule: "C03/write-sequence",
 				Edits: []Edit{{File: "driver/netconf/rpc.go", Old: "\t\tserialized.rawXML,\n\t\tserialized.framedXML,\n\t\td.Transport.GetHost(),", New: "\t\tserialized.rawXML,\n\t\tserialized.rawXML,\n\t\td.Transport.GetHost(),"}}},
+			{ID: "C03-selfclose-guard-weakened", Desc: "self-closing rewrite skips only matches whose attribute part ends in a slash", Rule: "C03/selfclose-guard",
+				Edits: []Edit{{File: "driver/netconf/message.go", Old: "\t\tclosingTag := sm[3]\n\n\t\tif !bytes.Equal(openingTag, closingTag) {", New: "\t\tif bytes.HasSuffix(openingTagContents, []byte(\"/\")) {"}}},
 			{ID: "C03-header-when-excluded", Desc: "XML declaration always prepended", Rule: "C03/framing",
 				Edits: []Edit{{File: "driver/netconf/message.go", Old: "\tif !excludeHeader {\n\t\tmsg = append([]byte(xmlHeader), msg...)\n\t}", New: "\tmsg = append([]byte(xmlHeader), msg...)\n\t_ = excludeHeader"}}},
 		},
@@ -61,11 +63,13 @@ func init() {
 func runC03(c *Ctx, r *Report) {
 	r.Rule("C03/framing", "serialize: payload, raw copy, 1.0 delimiter and 1.1 chunk framing with the byte length of the value that follows, on all 8 paths", 8)
 	r.Rule("C03/write-sequence", "sendRPC writes framed bytes + return, one more return exactly under 1.1, then waits; the response reports the same serialisation", 4)
+	r.Rule("C03/selfclose-guard", "ForceSelfClosingTags rewrites a pattern match only when its opening tag name equals its closing tag name (the pattern alone has no back-reference)", 1)
 	r.Rule("C03/element-wiring", "RFC element names in struct tags; builders wire each parameter to its element; public methods pass arguments in position", 40)
 	r.Rule("C03/options", "NETCONF operation options store the setting they name", 14)
 
 	checkSerializeFraming(c, r)
 	checkSendRPCSequence(c, r)
+	checkSelfClosingGuard(c, r)
 	checkElementTags(c, r)
 	checkBuilderWiring(c, r)
 	only := map[string]bool{}
